@@ -22,12 +22,14 @@ import json
 import sys
 import vlib
 import c01_deep
+import restartlib
 
 RULE = ("TLC explores every interleaving of reads, barrier deliveries, alignment, acks (any order), publication, "
         "Kill(any node set, any state) and Restart of Recovery.tla for small constants; simulated behaviours are "
         "replayed on the real in-process cluster through message-level gates and judged by the state the handler is "
         "given, the published checkpoints read back from DKV and the final state; free-running seeded runs are "
-        "validated as traces by RecoveryTrace.tla")
+        "validated as traces by RecoveryTrace.tla; restart inside a living job (Restart.tla): start() of the real jobs.Job is "
+        "stepped while a gated publication completes in between - operators and sources must resume from one cut")
 
 INV = ["NoDouble", "SeenIsClean", "NoLoss", "FinalState", "ConsistentCut", "NoLostOps", "TypeOK"]
 KNOWN = "Dev_AssignUnsorted"
@@ -130,6 +132,8 @@ def run(c):
     b2 = dict(BASE, B=2, KeyDigits=1212)
     rec3 = dict(BASE, NRecs=3, KeyDigits=121212)
     w3 = dict(BASE, W=3, NSplits=3, NRecs=2, KeyDigits=123231, OwnerDigits=123, B=2, MaxCkpt=3, MaxKills=3)
+    # re-assembly inside a living job while a snapshot write is in flight: operators and sources resume from ONE cut
+    stage(c, restartlib.single_cut_arm, c, c.tier, "C01")
     if quick:
         exhaustive(c, dict(BASE), "2 workers, 2x2 records, 2 ckpts, 2 kills")
         exhaustive(c, dict(b2, MaxKills=1), "operator batching B=2, 1 kill")
@@ -158,7 +162,8 @@ def run(c):
     stage(c, traces, c, dict(TRACE, W=3, NSplits=4, NRecs=8, OwnerDigits=123123), 6, 20 if quick else 300, c.seed * 7 + 2, "3 workers, 4x8 records")
     c01_deep.run_deep(c, sys.modules[__name__])   # dkv flush/compaction underneath, rescale at recovery, overlapping publications
     c.assumptions += [
-        "one assembly per job: a restart is a new Job + fresh workers over the same storage (in-job reassembly is C15)",
+        "one assembly per job in the Recovery.tla arms: a restart is a new Job + fresh workers over the same storage; of a re-assembly inside "
+        "a living job only the one-cut condition is checked here (restart arm), the rest is C15",
         "kill-only fault model: calls never fail while both ends are alive; messages in flight from a dead node may still arrive",
         "one publication = snapshot write + deletion of the old file + retention round to the operators, not interleaved with other "
         "steps (DESIGN 7 #19/#28 belong to C13/C09); the write itself may stay in flight across kills and the next checkpoint",
@@ -167,6 +172,9 @@ def run(c):
 
 def replay(c, path):
     payload = json.load(open(path))
+    if restartlib.is_restart_file(payload):
+        restartlib.replay(c, path)
+        return
     if payload.get("deep"):
         c01_deep.replay_trace(c, sys.modules[__name__], payload)
         return
